@@ -1277,6 +1277,15 @@ func instrIndex(ins ssa.Instruction) int {
 func (x *Evaluator) evalFieldRead(a *ssa.FieldAddr, t types.Type, e *env, c *evalCtx) Val {
 	name := structFieldName(a.X.Type(), a.Field)
 	st := a.X.Type().Underlying().(*types.Pointer).Elem()
+	// the only field of a wrapper struct that is itself a field of the object (a stack type
+	// around a list): reading it is reading that field
+	if wst, ok := st.Underlying().(*types.Struct); ok && wst.NumFields() == 1 {
+		if _, isLocal := a.X.(*ssa.Alloc); !isLocal {
+			if pv, ok := x.evalC(a.X, e, c).(PtrV); ok && pv.FA != nil && pv.Env != nil {
+				return x.evalFieldRead(pv.FA, t, pv.Env, c)
+			}
+		}
+	}
 	// field of an element of a slice held by the converter (a stack entry)
 	if ia, ok := a.X.(*ssa.IndexAddr); ok {
 		if o, ok := x.evalC(ia.X, e, c).(OpaqueV); ok {
